@@ -35,7 +35,7 @@ pub fn run(rep: &mut Report, tier: &str, seed: u64) -> Result<(), String> {
     let mut nested = Stream::new(
         "oracle/nested-subtree",
         "oracle",
-        "a namespaced <svg> subtree embedded in an svgdx document: the subtree's bytes (or infoset) must reappear in the output",
+        "a namespaced <svg> subtree embedded in an svgdx document as first / middle / last child of the root or of a group: the subtree's bytes (or infoset) must reappear in the output, and the document around it is still processed (compound attributes expanded, root completed)",
     );
     for i in 0..n {
         let doc = real_svg_doc(&mut rng);
@@ -99,10 +99,27 @@ pub fn run(rep: &mut Report, tier: &str, seed: u64) -> Result<(), String> {
         if i % 3 == 0 {
             let sub = real_svg_subtree(&mut rng);
             if ex.parse(sub.as_bytes()).is_err() { continue; }
-            let outer = format!("<svg>\n  <rect xy=\"1 2\" wh=\"3\"/>\n  {sub}\n  <circle cxy=\"20 20\" r=\"2\"/>\n</svg>");
+            // where the subtree stands: first / middle / last child of the root, or of a group
+            let place = rng.below(6);
+            let (r, c) = ("<rect xy=\"1 2\" wh=\"3\"/>", "<circle cxy=\"20 20\" r=\"2\"/>");
+            let outer = match place {
+                0 => format!("<svg>\n  {r}\n  {sub}\n  {c}\n</svg>"),
+                1 => format!("<svg>\n  {sub}\n  {r}\n  {c}\n</svg>"),
+                2 => format!("<svg>{sub}{r}{c}</svg>"),
+                3 => format!("<svg>\n  {r}\n  {c}\n  {sub}\n</svg>"),
+                4 => format!("<svg>\n  <g>\n  {sub}\n  {r}\n  </g>\n  {c}\n</svg>"),
+                _ => format!("<svg>\n  <!-- c -->\n  {sub}\n  <g>{r}{sub}</g>\n  {c}\n</svg>"),
+            };
             nested.case(&outer, true, || json!({"document": short(&outer)}));
+            nested.tally(&format!("subtree-position={}", ["middle", "first", "first-no-blanks", "last", "first-in-group", "after-comment+in-group"][place as usize]));
             match transform(&outer, &cfg) {
                 Ok(Ok(out)) => {
+                    // the rest of the document is still an svgdx document: its elements are expanded and
+                    // the root is completed (the embedded subtree has no say in that)
+                    let rest = out.replace(&sub, "");
+                    if rest.contains("wh=\"3\"") || rest.contains("cxy=\"20 20\"") || !out.find("<svg").map(|i| out[i..].split('>').next().unwrap_or("").contains("xmlns=")).unwrap_or(false) {
+                        rep.violation(Violation { kind: "oracle", stream: nested.name.clone(), signature: "C03:nested-rest-unprocessed".into(), what: format!("an embedded namespaced <svg> switched off processing of the document around it: {}", short(&out)), replay: json!({"input": outer, "config": cfg_desc(&cfg)}), confirmed_on_impl: true });
+                    }
                     if out.contains(&sub) {
                         nested.exact += 1;
                     } else {
